@@ -6,6 +6,7 @@ content recipes
   ["text", [line, ...], wrap, align]            urwid.Text (flow); every word is unique
   ["edit", caption, text, multiline]            urwid.Edit (flow, selectable, has a cursor)
   ["rowspy", base, n, sel, keys, buttons]       flow spy, n rows at any width
+  ["cursorspy", base, n, keys, buttons]         flow spy with the cursor protocol (up/down move its cursor)
   ["wrapspy", base, n, sel, keys, buttons]      flow spy, n cells laid out row-major
   ["fixedspy", base, cols, n, sel, keys, buttons]
   ["pile", [item recipe, ...], focus_index]
@@ -85,9 +86,19 @@ class Gen:
         txt = "\n".join(self.lines(rng.randint(1, 4), 3)) if ml else " ".join(self.words(rng.randint(0, 4)))
         return ["edit", " ".join(self.words(rng.randint(0, 2))), txt, ml]
 
+    def tall_cursor_item(self, n):
+        """a focusable item with the cursor protocol and n rows: a real multi-line Edit or the cursor spy"""
+        rng = self.rng
+        if rng.random() < 0.6:
+            return ["edit", "", "\n".join(self.words(n)), True]
+        keys, buttons = self.handled() if rng.random() < 0.3 else ([], [])
+        return ["cursorspy", self.newbase(), n, [k for k in keys if k not in ("up", "down")], buttons]
+
     def flow_item(self, nmax=5):
         rng = self.rng
         r = rng.random()
+        if r < 0.08:
+            return self.tall_cursor_item(rng.randint(1, 2 * nmax))
         if r < 0.40:
             return self.spy("rowspy", rng.randint(1, nmax))
         if r < 0.55:
@@ -115,17 +126,22 @@ class Gen:
     def content(self, kind, w, h):
         rng = self.rng
         t = self.target_rows(h)
+        if kind == "LB" and rng.random() < 0.3:
+            # few items (row mode), the focus item has a cursor and is taller than (a later, smaller) view
+            items = [self.flow_item(3) for _ in range(rng.randint(0, 2))]
+            fpos = rng.randint(0, len(items))
+            items.insert(fpos, self.tall_cursor_item(rng.randint(h + 1, 2 * h + 6)))
+            items += [self.flow_item(3) for _ in range(rng.randint(0, 2))]
+            return ["listbox", items, fpos]
         if kind == "LB":
             items = []
             rows = 0
             while rows < t and len(items) < 40:
                 it = self.flow_item(4)
-                if it[0] == "edit":
-                    it = self.spy("rowspy", rng.randint(1, 3))
                 if rng.random() < 0.5:
                     it = self.spy("rowspy", 1)
                 items.append(it)
-                rows += it[2] if it[0] == "rowspy" else 2
+                rows += it[2] if it[0] in ("rowspy", "cursorspy") else 2
             return ["listbox", items, rng.randrange(len(items)) if items else 0]
         r = rng.random()
         if r < 0.22:
@@ -170,12 +186,14 @@ class Gen:
             else:
                 v = rng.choice(HUGE)
             return ["setpos", v]
-        if r < 0.66:
+        if r < 0.63:
             return ["resize", *self.size()]
+        if r < 0.66:
+            return ["dive", rng.randint(1, 9), rng.randint(2, 20), rng.choice([1, 2, 2, 3, 3, 4, 5])]
         if r < 0.69:
             return ["focus", rng.random() < 0.6]
         if r < 0.73 and case_kind != "S":
-            return ["bar", rng.choice(["left", "right"]), rng.randint(1, 3)]
+            return ["bar", rng.choice(["left", "right"]), rng.randint(-3, 4)]
         if r < 0.77:
             return ["sweep", rng.choice(["pos", "keys", "wheel"]) if case_kind != "LB" else rng.choice(["keys", "wheel"])]
         if r < 0.83 and ckind in ("pile", "listbox"):
@@ -192,8 +210,6 @@ class Gen:
         c = rng.random()
         if c < 0.35:
             it = self.flow_item(4)
-            if ckind == "listbox" and it[0] == "edit":
-                it = self.spy("rowspy", 2)
             return ["add", rng.randrange(64), it]
         if c < 0.6:
             return ["del", rng.randrange(64)]
@@ -211,7 +227,7 @@ class Gen:
         if kind != "S":
             wrap.update(
                 side=rng.choice(["left", "right"]),
-                bw=rng.choice([1, 1, 2, 3]),
+                bw=rng.choice([1, 1, 1, 2, 2, 3, 0, -1]),
                 thumb=rng.choice(THUMBS),
                 trough=rng.choice(TROUGHS),
                 deco=rng.random() < 0.15,
